@@ -29,8 +29,8 @@ CATALOGUE = [
     ('\\usepackage[german]{babel} "a "` $x$ \\begin{proof} p \\end{proof}', {'pack': 'amsthm'}, False),      # 7 babel option
     ('"a $x$ $y$ \\begin{proof} p \\end{proof}', {'pack': 'amsthm'}, False),                                 # 8
     ('A \\selectlanguage{german} B \\foreignlanguage{french}{C D E F G} H $z$', {'pack': 'babel', 'lang': 'en-GB'}, True),   # 9 language switches
-    ('$a$ $b$ $c$ \\[x\\] \\[y\\]', {}, False),                                                              # 10 rotation
-    ('$a$ \\[x\\]', {}, False),                                                                              # 11
+    ('$a$ $b$ $c$ \\[x\\] \\[y\\] \\eqref{q}', {'pack': 'amsmath,hyperref'}, False),                             # 10 rotation, packages by option
+    ('$a$ \\[x\\] \\href{u}{v} \\eqref{q}', {}, False),                                                        # 11
     ('\\begin{enumerate}\\item a\\item b \\begin{enumerate}\\item c', {}, False),                            # 12 open lists
     ('\\item b \\begin{enumerate}\\item c\\end{enumerate}', {}, False),                                      # 13
     ('$x \\verb|y', {'defs': '\\newcommand{\\dd}{FROMDEFS}', 'extr': None}, False),                          # 14 error marks, --defs
